@@ -50,7 +50,9 @@ def differential(ctx):
         ctx.problem("correspondence", "build of the run glue for the translated governance.ral parseAndVerifyVAA",
                     ("%s:%s %s" % (m.group(1), m.group(2), m.group(3).strip()[:400])) if m else out[-600:])
         return
-    rc, out, trace = core.harness_pkg(ctx, "vaa", "^TestVerifRalSrc$")
+    # the volume of the thorough tier (set sizes up to 255, ~4000 streams, ~100 s) is spent once, in C07; C04 always runs the quick volume
+    tier = ctx.tier if ctx.pid == "C07" else "quick"
+    rc, out, trace = core.harness_pkg(ctx, "vaa", "^TestVerifRalSrc$", env={"VERIF_TIER": tier})
     rows = [r for r in core.read_jsonl(trace) if r.get("k") == "ralsrc"]
     if rc != 0 or not rows:
         ctx.problem("correspondence", "go harness TestVerifRalSrc", out[-1500:])
